@@ -17,11 +17,21 @@ Pairs == /\ LtExact(a, x) /\ LeExact(a, x) /\ LtShape(a, x) /\ AddSizeEq(a, x)
 Triples == \A c \in V : /\ InRangeEq(c, a, x) /\ InWindowEq(c, a, x)
                         /\ (InWindow(c, a, x) <=> (x > 0 /\ (c = a \/ InRange(c, a, Add(a, x)))))
 Quads == \A b, y \in V :
-            /\ (OverlapImpl(a, b, x, y) # Share(a, b, x, y)) <=> F2b(a, b, x, y)
-            /\ Share(a, b, x, y) <=> ShareW(a, b, x, y)          \* ShareLemma
-            /\ OverlapExactW(a, b, x, y)
-            /\ RegionsOK(a, b, x, y)
-            /\ Share(a, b, x, y) <=> Share(x, y, a, b)
+            LET sh   == Share(a, b, x, y)          \* the definition, literally (\E k \in V)
+                shw  == ShareW(a, b, x, y)
+                impl == OverlapImpl(a, b, x, y)
+                ends == EndsAhead(a, b, x, y)
+                fe   == (b = 0 \/ y = 0) /\ ends
+                fw   == b > 0 /\ y > 0 /\ shw /\ ~ends
+            IN  /\ (impl # sh) <=> (fe \/ fw)                    \* OverlapExact
+                /\ sh <=> shw                                    \* ShareLemma
+                /\ (fe \/ fw) <=> F2b(a, b, x, y)
+                /\ impl <=> ends
+                /\ R2(b, y) => ~(fe \/ fw)
+                /\ R1(a, b, x, y) => ~(fe \/ fw)
+                /\ fw => b + y > H + 1
+                /\ ~(fe /\ fw)
+QuadsSym == \A b, y \in V : Share(a, b, x, y) <=> Share(x, y, a, b)
 (* R2 is exact in the sizes (evaluated once, in the state a = 0, st = 0) *)
 SizesExact == (st = 0 /\ a = 0) =>
                 \A b, y \in V : (R2(b, y) \/ <<b, y>> \in {<<0, 1>>, <<1, 0>>})
